@@ -28,6 +28,23 @@ have 2..6 abscissae per coefficient, half have weights up to 2^12, half of the 1
 The oracle is exact on the float coefficients (no tolerance): a step of -1e-9 (or -1e-40) is a decreasing pair; any
 negative coefficient is reported as well (the hypothesis of float_cumsum_monotone).  For the small-magnitude inactive shape
 the monotonic fit of 2^k*data must be 2^k times the monotonic fit of data (the constrained minimiser is homogeneous).
+
+Third stream (weight-scale family, same number of fits; shapes 12..17 = the first-stream shapes, the inactive one three times
+as often): the weights — 1/variance in practice — have an overall scale 4^j between 2^-40 and 2^40 (1e-12 .. 1e12), uniform over
+the fit or mixed within it (scattered over the rows with a half-spread of 2^4, 2^10 or 2^20; a gradient or two blocks along one
+dimension with a half-spread of 2^4 or 2^10); the smoothing is 1e-3..10 times the same scale, or exactly zero (then every knot
+interval of the supported region holds order+1..order+3 abscissae, the grid is full and no weight is zero, so the data determine
+the fit); a quarter of the tables has values of 2^10..2^60.  Oracles besides the ones above:
+  * `W`: the monotonic fit with (w, lambda) must equal the monotonic fit with (4^-j w, 4^-j lambda) — the objective is the same up
+    to a factor, and scaling by a power of four is exact in every floating-point operation of the fit (including the square roots
+    of the factorisation), so on a scale-free implementation the two are bit-identical whatever the conditioning (measured: 0
+    difference in 19 200 comparisons on the tree with fixes/C10-3.diff); tolerance INACTIVE_TOL;
+  * `G`: large-valued tables: fit(z) = 2^k fit(2^-k z);
+  * `U`: inactive comparison with the unconstrained fit (which is independent of the weight scale: cholesky_solve has no absolute
+    threshold) — in one dimension, and in >= 2 dimensions for zero smoothing (with smoothing the known finding inactive:differs:nd
+    hides everything); for weights mixed within the fit with tolerance 256*INACTIVE_TOL up to a half-spread of 2^4 (structured) /
+    2^10 (scattered), not at all beyond: the solver's stopping rule is absolute in the gradient normalised to its largest entry.
+Signatures of this family carry the suffix :large-weights (heaviest weights >= 2^16) or :small-weights (lightest <= 2^-20).
 """
 import json, os, struct
 from fractions import Fraction
@@ -42,7 +59,10 @@ SHAPES = ["noisy increasing", "decreasing", "oscillating", "noise", "steps with 
           "small magnitude: mixture (rise or steep fall + gentle fall, or gentle fall + rise to a large amplitude)",
           "small magnitude: plateau with a ripple/noise of the size of the gentle step",
           "shapes 0..4 scaled by 2^-10..2^-45", "inactive (smooth increasing) scaled by 2^-7..2^-40",
-          "small magnitude: gentle drift of a table that is negative or crosses zero"]
+          "small magnitude: gentle drift of a table that is negative or crosses zero"] + [
+          "weight-scale family (weights 2^-40..2^40, uniform or mixed within the fit; smoothing scaled with the weights or zero): " + x
+          for x in ["noisy increasing", "decreasing", "oscillating", "noise", "steps with outliers", "inactive (smooth increasing)"]]
+WPAT = ["uniform scale", "random per row", "gradient along one dimension", "two blocks along one dimension"]
 
 
 def dbl(u): return struct.unpack("d", struct.pack("Q", int(u)))[0]
@@ -58,17 +78,49 @@ def build(ctx, mode):
 
 def describe(pline):
     w = pline.split()
-    return {"problem_line": pline if len(pline) < 60000 else pline[:60000] + " ...", "ndim": int(w[1]), "monodim": int(w[2]),
-            "data": SHAPES[int(w[3])] if int(w[3]) < len(SHAPES) else w[3],
-            "replay_cmd": "python3 bin/check.py C10 --replay <this file>"}
+    d = {"problem_line": pline if len(pline) < 60000 else pline[:60000] + " ...", "ndim": int(w[1]), "monodim": int(w[2]),
+         "data": SHAPES[int(w[3])] if int(w[3]) < len(SHAPES) else w[3],
+         "replay_cmd": "python3 bin/check.py C10 --replay <this file>"}
+    if len(w) > 6 and w[-6] == "K":
+        h = header(pline); wk, wpat, wm, wgd, wdir = [int(x) for x in w[-5:]]
+        d["weights"] = {"overall_scale": "2^%d" % wk, "pattern": WPAT[wpat] if wpat < len(WPAT) else wpat, "half_spread": "2^%d" % wm,
+                        "smallest_nonzero": h["wmin"], "largest": h["wmax"], "smoothing": h["smooth"]}
+        if wpat >= 2: d["weights"]["along"] = "dimension %d, %s" % (wgd, "falling" if wdir > 0 else "rising")
+    return d
+
+
+def wclass(pline):
+    """(wk, wpat, wm, band) of a weight-scale problem; band: suffix of the signature by the overall scale of the weights"""
+    w = pline.split()
+    if len(w) < 7 or w[-6] != "K": return None
+    wk, wpat, wm = int(w[-5]), int(w[-4]), int(w[-3])
+    # heaviest weights about 2^(wk+wm), lightest about 2^(wk-wm)
+    return wk, wpat, wm, (":large-weights" if wk + wm >= 16 else (":small-weights" if wk - wm <= -20 else ""))
+
+
+def header(pline):
+    """smoothing per dimension and the range of the weights of a P line"""
+    w = pline.split(); nd = int(w[1]); p = 4; smooth = []
+    for _ in range(nd):
+        smooth.append(dbl(w[p + 2])); nk = int(w[p + 3]); p += 4 + nk; nc = int(w[p]); p += 1 + nc
+    rows = int(w[p]); p += 1; ws = []
+    for r in range(rows):
+        ws.append(dbl(w[p + nd + 1])); p += nd + 2
+    nz = [v for v in ws if v > 0]
+    return {"smooth": smooth, "wmin": min(nz) if nz else 0.0, "wmax": max(ws) if ws else 0.0}
 
 
 def run_harness(ctx, exe, args, tag):
     """a scheduling-dependent hang of walk_descents (property C12, lost wake-up) is retried; a repeatable one is a result"""
     for attempt in range(3):
-        rc, out, err = ctx.run([exe] + args, timeout=90, env={"OMP_NUM_THREADS": "1", "GOTO_NUM_THREADS": "1"})
+        rc, out, err = ctx.run([exe] + args, timeout=240, env={"OMP_NUM_THREADS": "1", "GOTO_NUM_THREADS": "1"})
         if rc != 124: return rc, out, err, attempt
     return 124, out, err, 3
+
+
+def band(pline):
+    c = wclass(pline)
+    return c[3] if c else ""
 
 
 def report(ctx, acc, signature, replay, what):
@@ -105,12 +157,12 @@ def evaluate(ctx, cases, impl, acc):
             if o != "table": ctx.tie_ok = False; ctx.broken.append({"kind": "driver rejected the fitted table", "out": o})
             coefs = [flt(u) for u in c.split()[-int(_ncoef(c)):]]
             if any(v != v or v in (float("inf"), float("-inf")) for v in coefs):
-                report(ctx, acc, "fit:nonfinite", describe(prob), "monotonic fit returned non-finite coefficients on a well-posed problem")
+                report(ctx, acc, "fit:nonfinite" + band(prob), describe(prob), "monotonic fit returned non-finite coefficients on a well-posed problem")
             elif any(v < 0 for v in coefs):
                 # hypothesis of float_cumsum_monotone: the T-spline coefficients come out of the non-negative solve (C11 block3_nonneg_invariant:
                 # every exit of nnls_normal_block3 returns x >= 0), so every partial sum, in particular the first slice, is >= 0
                 j = min(range(len(coefs)), key=lambda q: coefs[q])
-                report(ctx, acc, "mono:negative-coefficient", dict(describe(prob), index=j, value=coefs[j]),
+                report(ctx, acc, "mono:negative-coefficient" + band(prob), dict(describe(prob), index=j, value=coefs[j]),
                            "monotonic fit returned a negative coefficient c[%d] = %.9g: the non-negative solve handed a negative T-spline coefficient to the cumulative sum" % (j, coefs[j]))
             continue
         if k == "M":
@@ -126,8 +178,8 @@ def evaluate(ctx, cases, impl, acc):
                 if len(ctx.broken) < 5: ctx.broken.append({"kind": "increments_nonneg_iff instance: incNonnegB != (monoAlongB and first slice >= 0)", "driver": o})
             if inc_ok: acc["inc_ok"] += 1
             if not mono_ok:
-                pair = first_decreasing_pair(table, int(c.split()[1]))
-                report(ctx, acc, "mono:decreasing-pair", dict(describe(prob), driver=o, pair=pair),
+                pair = first_decreasing_pair(table, int(c.split()[1])) or "a non-finite coefficient"
+                report(ctx, acc, "mono:decreasing-pair" + band(prob), dict(describe(prob), driver=o, pair=pair),
                            "monotonic fit returned coefficients that decrease along monodim=%s: %s" % (c.split()[1], pair))
             else:
                 acc["mono_ok"] += 1
@@ -151,7 +203,7 @@ def evaluate(ctx, cases, impl, acc):
                 if len(ctx.broken) < 5: ctx.broken.append({"kind": "C10_monotone instance: exact derivative negative although monoAlongB holds", "line": c, "spec": o[2]})
             env = ENV_K * float(mag) * 2.0 ** -53
             if cval != cval or cval < -env:
-                report(ctx, acc, "deriv:negative", dict(describe(prob), point=c, impl_derivative=cval, exact_derivative=float(spec), envelope=env),
+                report(ctx, acc, "deriv:negative" + band(prob), dict(describe(prob), point=c, impl_derivative=cval, exact_derivative=float(spec), envelope=env),
                            "derivative along monodim is %.3e < -envelope %.3e (exact derivative of the returned spline %.3e)" % (cval, env, float(spec)))
             elif cval < 0 and float(mag) > 0:
                 acc["worst_neg_ratio"] = max(acc["worst_neg_ratio"], -cval / (float(mag) * 2.0 ** -53))
@@ -172,6 +224,28 @@ def evaluate(ctx, cases, impl, acc):
                            "monotonic fit of a small-valued table (largest value 2^-%d) differs from 2^-%d times the monotonic fit of the same table scaled by 2^%d by %.3e of the largest coefficient%s" % (
                                kk, kk, kk, d, " (it is identically zero)" if all(a == 0 for a, _ in pairs) else ""))
             continue
+        if k in "WG":
+            # W: weight-scale equivariance (the minimiser depends only on the ratio weights : smoothing): fit(2^k w, 2^k lambda) = fit(w, lambda)
+            # G: data-scale equivariance for large-valued tables: fit(z) = 2^k fit(2^-k z)
+            w = c.split(); nc = int(w[1]); kk = int(w[2])
+            pairs = [(flt(w[3 + 2 * j]), flt(w[4 + 2 * j]) * (2.0 ** kk if k == "G" else 1.0)) for j in range(nc)]
+            acc["evaluations"] += 1; key = "wscaled" if k == "W" else "dscaled"
+            acc[key + "_checked"] += 1
+            if any(a != a or b != b or abs(a) == float("inf") or abs(b) == float("inf") for a, b in pairs):
+                d = float("inf")
+            else:
+                scale = max(abs(b) for _, b in pairs) or 1.0
+                d = max(abs(a - b) for a, b in pairs) / scale
+                acc["worst_" + key + "_rel"] = max(acc["worst_" + key + "_rel"], d)
+                if k == "W": acc["wscaled_by_k"].append((kk, d))
+            if d > INACTIVE_TOL:
+                if k == "W":
+                    report(ctx, acc, "weightscale:differs" + band(prob), dict(describe(prob), max_rel_diff=d, k=kk),
+                           "monotonic fit with weights of overall scale 2^%d (smoothing scaled alike) differs from the monotonic fit of the same problem with weights and smoothing times 2^%d by %.3e of the largest coefficient: the fit must depend only on the ratio weights : smoothing" % (kk, -kk, d))
+                else:
+                    report(ctx, acc, "scale:differs:large-values" + band(prob), dict(describe(prob), max_rel_diff=d, k=kk),
+                           "monotonic fit of a large-valued table (largest value 2^%d) differs from 2^%d times the monotonic fit of the table scaled by 2^-%d by %.3e of the largest coefficient" % (kk, kk, kk, d))
+            continue
         if k == "U":
             w = c.split(); nc = int(w[1]); pairs = [(flt(w[2 + 2 * j]), flt(w[3 + 2 * j])) for j in range(nc)]
             acc["evaluations"] += 1
@@ -187,12 +261,29 @@ def evaluate(ctx, cases, impl, acc):
                         v = unc[a * s2 * n + j * s2 + kk]
                         if v - prev < margin: inactive = False
                         prev = v
+            if any(v != v or abs(v) == float("inf") for v in unc): inactive = False       # the unconstrained fit itself failed: no reference
             if not inactive: acc["inactive_precondition_failed"] += 1; continue
+            tol = INACTIVE_TOL; wc = wclass(prob)
+            if wc and wc[1] >= 1:
+                # weights mixed within the fit: the solver stops when every gradient component is above -1e-9 of the largest one, so a region whose
+                # weights are rho times the heaviest ones is fitted to about 1e-9/rho only, and the conditioning of both normal matrices grows with
+                # the spread: tolerance * 4^4 (5e-3) up to a half-spread of 2^4 (structured patterns) or 2^10 (weights scattered over the rows),
+                # no comparison beyond (measured on the repaired tree, 40 seeds: worst 2.6e-5 scattered, 1.8e-4 structured)
+                if (wc[1] >= 2 and wc[2] > 4) or wc[2] > 10: acc["inactive_skipped_weight_spread"] += 1; continue
+                tol = INACTIVE_TOL * 4.0 ** 4
             acc["inactive_checked"] += 1
             d = max(abs(a - b) for a, b in pairs) / scale
-            acc["worst_inactive_rel"] = max(acc["worst_inactive_rel"], d)
-            if d > INACTIVE_TOL:
-                report(ctx, acc, "inactive:differs:%s" % (("1d:small-values" if int(pw[3]) == 10 else "1d") if int(pw[1]) == 1 else "nd"), dict(describe(prob), max_rel_diff=d),
+            if d != d: d = float("inf")
+            if int(pw[3]) >= 12:
+                acc["ws_inactive_checked"] += 1; acc["worst_ws_inactive_rel"] = max(acc["worst_ws_inactive_rel"], d)
+            else:
+                acc["worst_inactive_rel"] = max(acc["worst_inactive_rel"], d)
+            if d > tol:
+                if int(pw[3]) >= 12:
+                    sig = "inactive:differs:weight-scale:" + ("1d" if int(pw[1]) == 1 else "nd:zero-smoothing") + band(prob)
+                else:
+                    sig = "inactive:differs:%s" % (("1d:small-values" if int(pw[3]) == 10 else "1d") if int(pw[1]) == 1 else "nd")
+                report(ctx, acc, sig, dict(describe(prob), max_rel_diff=d),
                            "constraint inactive (unconstrained fit non-negative and non-decreasing with margin) but the monotonic fit differs by %.3e relative" % d)
 
 
@@ -248,16 +339,23 @@ def first_decreasing_pair(tline, m):
 
 def new_acc():
     return {"fits": 0, "evaluations": 0, "mono_ok": 0, "deriv_points": 0, "deriv_positive": 0, "deriv_inexact": 0, "worst_neg_ratio": 0.0,
-            "worst_err_ratio": 0.0, "inactive_checked": 0, "inactive_precondition_failed": 0, "worst_inactive_rel": 0.0, "scaled_checked": 0, "worst_scaled_rel": 0.0, "hang_retries": 0, "distinct": set(), "reported": {},
+            "worst_err_ratio": 0.0, "inactive_checked": 0, "inactive_precondition_failed": 0, "worst_inactive_rel": 0.0, "scaled_checked": 0, "worst_scaled_rel": 0.0,
+            "wscaled_checked": 0, "worst_wscaled_rel": 0.0, "dscaled_checked": 0, "worst_dscaled_rel": 0.0, "wscaled_by_k": [],
+            "ws_inactive_checked": 0, "worst_ws_inactive_rel": 0.0, "inactive_skipped_weight_spread": 0, "hang_retries": 0, "distinct": set(), "reported": {},
             "value_points": 0, "value_pairs": 0, "value_increasing": 0, "worst_value_drop_ratio": 0.0, "inc_ok": 0}
 
 
 def finish(ctx, acc, dist):
     ctx.coverage["evaluations"] = acc["evaluations"]
     ctx.coverage["distinct_nontrivial"] = len(acc["distinct"])
-    ctx.coverage["rule"] = ("fit problems drawn from VERIF_SEED by harness/mono_harness.cpp (two streams: ordinary magnitudes; small-magnitude tables and gentle drifts); "
+    ctx.coverage["rule"] = ("fit problems drawn from VERIF_SEED by harness/mono_harness.cpp (three streams: ordinary magnitudes; small-magnitude tables and gentle drifts; weight scales 2^-40..2^40, uniform and mixed, smoothing scaled alike or zero); "
                             "a case is non-trivial when the fit returned and its coefficients passed monoAlongB; distinct = distinct fitted tables")
     ctx.coverage["input_distribution"] = dist
+    bins = {}
+    for kk, d in acc["wscaled_by_k"]:
+        b = "2^%d..%d" % (10 * (kk // 10), 10 * (kk // 10) + 9); e = bins.setdefault(b, {"comparisons": 0, "worst_rel": 0.0})
+        e["comparisons"] += 1; e["worst_rel"] = max(e["worst_rel"], d)
+    acc["wscaled_by_k"] = bins
     ctx.coverage["measured"] = {k: v for k, v in acc.items() if k != "distinct"}
     ctx.assumptions += [
         "float addition is monotone (a >= 0 -> fl(s+a) >= s) and double->float conversion preserves >= 0: IEEE-754 round-to-nearest, no NaN (hypothesis hadd of float_cumsum_monotone)",
@@ -266,12 +364,14 @@ def finish(ctx, acc, dist):
         "OMP_NUM_THREADS=1; a scheduling-dependent hang of walk_descents (property C12) is retried up to 3 times",
         "optimality of the constrained fit in the active case is C11's subject (nnls_normal_block3), not checked here",
         "scale equivariance fit(2^k z) = 2^k fit(z) and the inactive comparison are checked to %g of the largest coefficient; small-magnitude tables down to 2^-45 (no float32 subnormals)" % INACTIVE_TOL,
+        "weight-scale equivariance fit(4^j w, 4^j lambda) = fit(w, lambda) checked to %g of the largest coefficient for overall weight scales 2^-40..2^40 (even exponents: exact scaling); weights mixed within one fit: half-spread up to 2^10 for structured patterns (gradient, two blocks) and 2^20 for weights scattered over the rows — beyond that the T-spline normal equations are numerically singular when the heavy region lies late along the monotonic dimension (NaN also from an independent double-precision Cholesky) and a region with weights below 1e-9 of the heaviest is invisible to the solver's stopping rule; inactive comparison for mixed weights to %g up to a half-spread of 2^4 / 2^10 only" % (INACTIVE_TOL, 256 * INACTIVE_TOL),
     ]
     ctx.note("value_points=%d value_pairs=%d (increasing %d) worst_value_drop_ratio=%.1f inc_ok=%d" % (
         acc["value_points"], acc["value_pairs"], acc["value_increasing"], acc["worst_value_drop_ratio"], acc["inc_ok"]))
-    ctx.note("fits=%d mono_ok=%d deriv_points=%d (positive %d) worst_neg_ratio=%.1f worst_err_ratio=%.1f inactive checked=%d (precondition failed %d) worst_inactive_rel=%.2e scaled checked=%d worst_scaled_rel=%.2e hang_retries=%d reported=%s" % (
+    ctx.note("fits=%d mono_ok=%d deriv_points=%d (positive %d) worst_neg_ratio=%.1f worst_err_ratio=%.1f inactive checked=%d (precondition failed %d) worst_inactive_rel=%.2e scaled checked=%d worst_scaled_rel=%.2e weight-scaled checked=%d worst_wscaled_rel=%.2e large-value-scaled checked=%d worst_dscaled_rel=%.2e weight-scale inactive checked=%d worst=%.2e hang_retries=%d reported=%s" % (
         acc["fits"], acc["mono_ok"], acc["deriv_points"], acc["deriv_positive"], acc["worst_neg_ratio"], acc["worst_err_ratio"],
-        acc["inactive_checked"], acc["inactive_precondition_failed"], acc["worst_inactive_rel"], acc["scaled_checked"], acc["worst_scaled_rel"], acc["hang_retries"], json.dumps(acc["reported"], sort_keys=True)))
+        acc["inactive_checked"], acc["inactive_precondition_failed"], acc["worst_inactive_rel"], acc["scaled_checked"], acc["worst_scaled_rel"],
+        acc["wscaled_checked"], acc["worst_wscaled_rel"], acc["dscaled_checked"], acc["worst_dscaled_rel"], acc["ws_inactive_checked"], acc["worst_ws_inactive_rel"], acc["hang_retries"], json.dumps(acc["reported"], sort_keys=True)))
 
 
 def run(ctx):
@@ -285,7 +385,7 @@ def run(ctx):
             ctx.tie_ok = False; ctx.broken.append({"kind": "harness build failed", "mode": mode}); continue
         base = os.path.join(ctx.scratch, "c10_" + mode)
         n = nfits if mode == "shipped" else nfits // 5
-        rc, out, err, retries = run_harness(ctx, exe, [str(n), base + ".in", base + ".impl", base + ".stats", str(n)], mode)
+        rc, out, err, retries = run_harness(ctx, exe, [str(n), base + ".in", base + ".impl", base + ".stats", str(n), str(n)], mode)
         acc["hang_retries"] += retries
         if rc != 0:
             ctx.tie_ok = False
